@@ -38,6 +38,8 @@ def layout(a, k):
     """the same values in one of three memory layouts: C-contiguous, Fortran-ordered, a strided view (every second
     element of a larger buffer along the first axis)"""
     a = np.array(a, dtype=float)
+    if k % 4 == 3 and a.size and np.all(a == np.rint(a)):
+        return a.astype(np.int64)          # integer-valued data stored as integers (grid records): same spectrum
     if a.ndim < 2 or k % 3 == 0:
         return a
     if k % 3 == 1:
